@@ -880,6 +880,12 @@ func (g *jgen) tplResume(maxSubs int) (*jScenario, string, string) {
 	// the "before" phase: one thread, sequential; ids = the IDs of the messages the replayer stored
 	ids := []string{}
 	before := jPubSpec{}
+	// with explicit IDs, sometimes one stored message carries an ID that is set but empty (the "id:" reset line)
+	emptyAt := -1
+	if !auto && nb > 1 && g.r.Chance(1, 4) {
+		emptyAt = g.r.Intn(nb)
+		g.c.Count("replay:one-stored-id-is-empty")
+	}
 	for len(ids) < nb {
 		p := len(before.msgs)
 		m := jMsgSpec{topics: []uint64{topic}}
@@ -901,6 +907,9 @@ func (g *jgen) tplResume(maxSubs int) (*jScenario, string, string) {
 			ids = append(ids, strconv.Itoa(len(ids)))
 		} else {
 			id := "m" + strconv.Itoa(p)
+			if len(ids) == emptyAt {
+				id = ""
+			}
 			m.idopt = jID(id)
 			ids = append(ids, id)
 		}
